@@ -51,12 +51,12 @@ v("C06", "range-break-offset", "compiler.go", "block[n].Code, block[n].A = codeJ
 v("C06", "switch-case-skip", "compiler.go", "chunk = append(chunk, instruction{Code: codeJumpFalse, A: reg(len(csBlock) + 1)})", "chunk = append(chunk, instruction{Code: codeJumpFalse, A: reg(len(csBlock))})", "LAY-TARGET:switch/iteration")
 # C07
 v("C07", "for-post-expression", "symbol.go", '\tt.Append(asStatement(p.Expression(0, "{")))\n\tt.Append(p.Block("block", "{", "}"))\n\treturn t\n}', '\tt.Append(p.Expression(0, "{"))\n\tt.Append(p.Block("block", "{", "}"))\n\treturn t\n}', "PAR-ROLE:forNud: post")
-v("C07", "case-as-statement", "symbol.go", '\t\t\tc.Append(p.Expression(0))\n\t\t\tp.Advance(":")', '\t\t\tc.Append(p.Statement())\n\t\t\tp.Advance(":")', "PAR-ROLE:switchNud: case")
+v("C07", "case-as-statement", "symbol.go", "exprs := plural(p.Expression(0))", "exprs := plural(p.Statement())", "PAR-RESIZE:case slot expr")
 v("C07", "basen-late", "vm.go", "\t\t\tBaseN: len(v.stack) - args,", "\t\t\tBaseN: len(v.stack),", "FRM-PAIR:BaseN")
 v("C07", "splice-off-by-one", "vm.go", "v.stack = append(v.stack[:v.frame.BaseN], v.stack[topN:]...)", "v.stack = append(v.stack[:v.frame.BaseN+1], v.stack[topN:]...)", "FRM-PAIR:result-splice")
 v("C07", "absolute-slot", "do.go", "\t\tcase codeLocalZero:\n\t\t\ti := &codes[v.frame.N]\n\t\t\tv.stack[baseN+int(i.A)] = newZero(Type(i.B))", "\t\tcase codeLocalZero:\n\t\t\ti := &codes[v.frame.N]\n\t\t\tv.stack[int(i.A)] = newZero(Type(i.B))", "HND-LOCALBASE:codeLocalZero")
-v("C07", "local-op-global-index", "compiler.go", "\t\t\t\tif c.Locals.Exists(key) {\n\t\t\t\t\tgetter = codeLocalGet\n\t\t\t\t\tsetter = codeLocalSet\n\t\t\t\t\tlookup = c.Locals\n\t\t\t\t}", "\t\t\t\tif c.Locals.Exists(key) {\n\t\t\t\t\tgetter = codeLocalGet\n\t\t\t\t\tsetter = codeLocalSet\n\t\t\t\t}", "FRM-ADDR:LocalGet <- c.Globals")
-v("C07", "iter-unpacked", "compiler.go", "B: joinParams(reg(k), reg(v)), C: reg(-(len(block) + 1))})", "B: reg(k), C: reg(-(len(block) + 1))})", "HND-FIELDS:codeIter.B")
+v("C07", "local-op-global-index", "compiler.go", "\t\t\tif c.Locals.Exists(key) {\n\t\t\t\tgetter = codeLocalGet\n\t\t\t\tsetter = codeLocalSet\n\t\t\t\tlookup = c.Locals\n\t\t\t} else {", "\t\t\tif c.Locals.Exists(key) {\n\t\t\t\tgetter = codeLocalGet\n\t\t\t\tsetter = codeLocalSet\n\t\t\t} else {", "FRM-ADDR:LocalGet <- c.Globals")
+v("C07", "fastcallattr-unpacked", "compiler.go", "C: joinParams(in[n+2].A, in[n+2].B)})", "C: in[n+2].A})", "HND-FIELDS:codeFastCallAttr.C")
 # C08
 v("C08", "else-scope-open", "compiler.go", "\t\t\telseI = c.optimize(c.compile(tok.Tokens[ifElse]))\n\t\t\tc.End()", "\t\t\telseI = c.optimize(c.compile(tok.Tokens[ifElse]))", "SCO-PAIR:compiler.compile")
 v("C08", "const-not-shadowed", "compiler.go", "\t\t\t\tcode = codeLocalSet\n\t\t\t\tidx = c.Shadow(key)\n\t\t\t} else {\n\t\t\t\tlookup := c.Globals", "\t\t\t\tcode = codeLocalSet\n\t\t\t\tidx = c.Locals.Index(key)\n\t\t\t} else {\n\t\t\t\tlookup := c.Globals", "SCO-DECL:const Index")
@@ -68,7 +68,7 @@ v("C09", "variadic-count", "vm.go", "\txArgs = xArgs - len(varArgs) + 1", "\txAr
 v("C09", "func-skip", "do.go", "\t\t\tv.frame.N += int(nargs + rets + jump)", "\t\t\tv.frame.N += int(nargs + rets + jump - 1)", "LAY-FUNC:reader span")
 v("C09", "results-not-trimmed", "vm.go", "\t} else if fRets > xRets {\n\t\tv.stack = v.stack[:top+xRets]\n\t}", "\t}", "FRM-CHECKS:many-results")
 v("C09", "args-unchecked", "vm.go", "\tif xArgs != ft.Args {\n\t\tpanic(\"incorrect args\")\n\t}\n", "", "FRM-CHECKS:args-check")
-v("C09", "direct-invoke", "do.go", "\t\t\tv.stack = v.stack[:len(v.stack)-1]\n\t\t\tcallReady(v, f, int(i.A), int(i.B))", "\t\t\tv.stack = v.stack[:len(v.stack)-1]\n\t\t\tf.Value(v)", "FRM-INVOKE:")
+v("C09", "direct-invoke", "do.go", "\t\t\tv.stack = v.stack[:len(v.stack)-1]\n\t\t\tcallReady(v, f, int(i.A), int(i.B))", "\t\t\tv.stack = v.stack[:len(v.stack)-1]\n\t\t\t_ = i\n\t\t\tf.Value(v)", "FRM-INVOKE:")
 v("C09", "param-untyped", "vm.go", "v.stack[len(v.stack)-args+i] = v.stack[len(v.stack)-args+i].assign(Type(tokens[i].A))", "v.stack[len(v.stack)-args+i] = v.stack[len(v.stack)-args+i]", "REP-TYPEDSTORE:mkFunc Type(tokens[i].A)")
 # C10
 v("C10", "miss-zero-of-key", "value.go", "\tv, ok := m.data[k.num]\n\tif !ok {\n\t\treturn newZero(m.valueType), false\n\t}", "\tv, ok := m.data[k.num]\n\tif !ok {\n\t\treturn newZero(m.keyType), false\n\t}", "REP-MAPGET:numericMap.Get miss")
@@ -133,6 +133,22 @@ v("C15", "constraint-not-trimmed", "load.go", 'line := strings.Split(strings.Tri
 v("C16", "imports-not-sorted", "load.go", "\t\t\tp = treeSort(p)\n\t\t}\n\t\tpackages[pkg] = p", "\t\t}\n\t\tpackages[pkg] = p", "LOAD-SORT:loadImports")
 v("C19", "nested-stack-aliased", "vm.go", "\t\tstack:   append(params, fnc),", "\t\tstack:   append(append(v.stack[len(v.stack):], params...), fnc),", "FUNC-ISOLATED:VM.Func")
 v("C20", "lambda-funcname-reset", "compiler.go", "\t\tres = append(res, c.compile(tok.Tokens[0])...)\n\t\tc.FuncName = tmp", "\t\tres = append(res, c.compile(tok.Tokens[0])...)\n\t\tc.FuncName = \"\"\n\t\t_ = tmp", "SCO-SWAP:lambda FuncName")
+
+# wave-2 rules
+v("C08", "for-body-unscoped", "compiler.go", "\t\tc.Begin()\n\t\tblock := c.optimize(c.compile(tok.Tokens[forBlock]))\n\t\tc.End()", "\t\tblock := c.optimize(c.compile(tok.Tokens[forBlock]))", "SCO-BLOCK:for block")
+v("C08", "unshadow-clobbers", "lookup.go", "\t\tl.unshadow(\"~\" + key)\n\t}\n}", "\t\tl.unshadow(\"~\" + key)\n\t\tdelete(l.keyToIndex, \"~\"+key)\n\t}\n}", "SCO-CHAIN:unshadow clobber")
+v("C08", "drop-after-unshadow", "lookup.go", "\t\tdelete(l.keyToIndex, key)\n\t\tl.indexToKey[n] = \"\"\n\t\tl.unshadow(key)", "\t\tl.indexToKey[n] = \"\"\n\t\tl.unshadow(key)\n\t\tdelete(l.keyToIndex, key)", "SCO-CHAIN:drop order")
+v("C09", "redefine-body-only", "do.go", "\t\t\t\t*fnc.value.(*funcT) = *val.value.(*funcT)", "\t\t\t\tfnc.getFunc().Value = val.getFunc().Value", "FRM-REDEFINE:GlobalFunc")
+v("C09", "local-as-global-index", "compiler.go", "\t\t\tif len(fnc) == 1 && fnc[0].Code == codeGlobalGet {", "\t\t\tif len(fnc) == 1 {", "PAR-GLOBALIDX:compile(call)")
+v("C12", "probe-no-wrap", "intmap.go", "func (m *intMap) Get(key int) (Value, bool) {\n\ti := intMapHash(key)\n\tfor {\n\t\ti &= m.mask\n", "func (m *intMap) Get(key int) (Value, bool) {\n\ti := intMapHash(key) & m.mask\n\tfor {\n", "REP-INTMAP:probe intMap.Get")
+v("C12", "table-fills", "intmap.go", "\tm.max = size * 3 / 4", "\tm.max = size", "REP-INTMAP:geometry max")
+v("C12", "delete-stop", "intmap.go", "\t\t\t\tif m.pairs[i].distance <= 1 {", "\t\t\t\tif m.pairs[i].distance == 0 {", "REP-INTMAP:delete stop")
+v("C12", "probe-step-two", "intmap.go", "\t\t\treturn m.pairs[i].value, true\n\t\t}\n\t\ti++", "\t\t\treturn m.pairs[i].value, true\n\t\t}\n\t\ti += 2", "REP-INTMAP:step Get")
+v("C12", "qualified-alias-as-struct", "compiler.go", "\t\tif typ.t == typeType {\n\t\t\treturn Type(typ.Int())\n\t\t}\n\t\treturn structType", "\t\tif typ.t == typeType && tok.Symbol == \"(name)\" {\n\t\t\treturn Type(typ.Int())\n\t\t}\n\t\treturn structType", "REP-DEFTYPE:struct-type")
+v("C13", "literal-key-normalised", "compiler.go", "\t\tc.Globals.Set(tok.Text, String(tok.Unquote()))\n\t\tres = append(res, instruction{Code: codeConst, A: reg(c.Globals.Index(tok.Text))})", "\t\tkey := strings.ToLower(tok.Text)\n\t\tc.Globals.Set(key, String(tok.Unquote()))\n\t\tres = append(res, instruction{Code: codeConst, A: reg(c.Globals.Index(key))})", "LIT-CONSTKEY:key (string)")
+v("C14", "order-from-map", "value.go", "\tfor _, key := range cur.Order {\n\t\tidx := cur.Lookup[key]\n", "\tfor key, idx := range cur.Lookup {\n", "REP-ORDER:order loop")
+v("C15", "locals-per-package", "compiler.go", "\t\t\tLocals:   locals,", "\t\t\tLocals:   func() *lookup { _ = locals; return newLookup() }(),", "LOAD-SLOTS:slots compilePkgs")
+v("C19", "recover-shadows-err", "vm.go", "\t\tif r := recover(); r != nil {\n\t\t\terr = vm.btErr(r)\n\t\t}", "\t\tif r := recover(); r != nil {\n\t\t\terr := vm.btErr(r)\n\t\t\t_ = err\n\t\t}", "PAN-CONVERT:convert VM.run")
 
 json.dump(V, open('/verif/selftest/variants.json', 'w'), indent=1)
 print(len(V), "variants")
